@@ -9,6 +9,8 @@ NOTE = ("Trusted: Coq 8.16.1 kernel + vm_compute; harness/gen_tables.py and the 
         "Biopython/re/fs behaviour as modelled (see DESIGN.md section 7). No axioms (Print Assumptions: closed).")
 
 CLAIMED = {
+ "C17": "THIN THEOREMS, decided mainly by differential testing against a total model: proved that queries on a rejected record are the invalid-sequence error, that queries on an accepted record of any class of the common shape are defined (all 85 kit structures and all generic structures have the shape, by reflection over regenerated tables), and that the end-to-end assembly model never ends in an internal error for any mix of records; the implementation is run on random IUPAC x case strings of length 1-60, structure instances, single-letter corruptions and truncations for all kit classes and generic classes over every enzyme, and on assemblies mixing valid and spoiled records; anything but True/False, InvalidSequence or the documented assembly errors is reported with the input.",
+ "C18": "Theorems for every pattern and every re-spelling with the same codes: the matcher reads codes only, every class accepts or rejects all spellings alike with the same match and reports texts equal up to case, the illegal-site screen ignores case, and an assembly of re-spelled inputs gives the same outcome class, stalled overhang, duplicate pair, used/unused sets and a product equal up to case (the case-sensitive keying of the pinned code is refuted); tied by comparing the implementation on lower/upper/per-letter/site-concentrated mixed case with the case-carrying model, and an oracle against the upper-case baseline, for typing and for complete/missing/duplicate/unused assemblies.",
  "C02": "Theorems for EVERY pattern, every circular record with a unique matching start and every k in Z: is_valid, both overhangs, target and placeholder of the rotated record equal those of the record (what is reported is read off the one-turn window at the leftmost start; the unique start moves with the rotation), and the outcome and product word of an assembly are identical for all rotations of all inputs; tied by comparing the implementation at ALL rotations with the model for every kit class, generic classes over every enzyme geometry, IUPAC signatures and registry plasmids (rotations around the flanking structure), plus assemblies with every rotation of one element; rotation oracle with an independent uniqueness enumerator.",
  "C04": "PARTIAL PROOF. Proved: for every pattern of the common shape a match splits into pre.g1.(a.run.b).g3.post with the three groups adjacent at fixed offsets from the two ends of the match; by reflection over tables regenerated from the working tree, all 85 kit structures and the generic structures of all enzymes of the family have that shape with |g1|=|g3|=ovh and the cutter's site placed so that both cuts fall at the starts of groups 1 and 3. Not proved in Coq: the step from that static framing to cut positions on the circle and the no-inner-cut clause; these are decided by the differential part (typing observables vs model for all classes with planted sites, neighbouring structures, mutations, all rotations; oracle recomputing cut positions by word search and checking the four clauses, including placeholder contiguity and complementarity).",
  "C20": "Theorems: an embedded archive with unique ids named after its members iterates each key once, len = number of keys, every yielded key is found with that id, absent keys are not; a combination of any sequence of members looks a key up in the first member holding it, its key set is the union, each key once; a directory (abstract stem/match, instantiated with string models of splitext and the case-insensitive glob) with distinct stems is coherent and ignores sub-directories and non-matching files; the five archive indices regenerated from the working tree satisfy the hypotheses by reflection over all entries (resistance and regular-file flags included). Partial by nature: tar/gzip, GenBank parsing and fs are the environment; the real registries are run on the real archives (all keys) and on generated directories/combinations and compared with the model.",
